@@ -8,7 +8,7 @@ from .harness import call
 
 META = {
     "rule": "project P5: for connection size S in {500, 4000} a tag for every byte size in [S-64,S+64], [2S-32,2S+32], [3S-16,3S+16] and "
-    "{1,2,3,4,S/2}, for element widths 1,2,4,8 and structures of 12 and 88 bytes, with short (3) and long (40) names; each is read "
+    "{1,2,3,4,S/2}, for element widths 1,2,4,8 and structures of 12 and 88 bytes and strings of capacity 82, 20 and 1 (whose data area is 4 bytes smaller than the element), with short (3) and long (40) names; each is read "
     "and written whole through the single-request path and through the multi path (paired with a small request, both orders), on v20 "
     "(symbolic paths) and v32 (symbol-instance paths), with the large Forward Open accepted and refused; the controller's fragment "
     "lengths are explored with deviation bound 2 (quick 1); mixed lists of medium tags whose reply sizes sum to every value in "
